@@ -222,7 +222,8 @@ class C17:
         unknown = sorted(set(p1["audit"]) - KNOWN_AUDIT)
         n_audit_w = sum(1 for e in p1["audit"] if e in ("open-w", "os.remove", "os.rename", "os.chmod", "os.truncate", "os.link"))
         n_ops_w = sum(1 for k, _, _ in p1["ops"] if k in ("open-w", "os.open-w", "os.remove", "os.unlink", "os.replace",
-                                                            "os.rename", "os.chmod", "os.truncate", "os.link"))
+                                                            "os.rename", "os.chmod", "os.fchmod", "os.truncate",
+                                                            "os.ftruncate", "os.link"))
         if unknown or n_audit_w != n_ops_w:
             return {"inconclusive": f"trace incomplete: unknown audit events {unknown}, audit write events "
                                     f"{n_audit_w} vs wrapped {n_ops_w}", "traceback": str(p1["audit"]) + str(p1["ops"])}
@@ -309,7 +310,7 @@ class C17:
                           ("match", "write", 0, ("crash-before",)), ("match", "open-w|os.open-w", 0, ("crash-after",)),
                           ("match", "close", 0, ("crash-before",)), ("match", "os.replace|os.rename", 0, ("crash-before",)),
                           ("match", "os.replace|os.rename", 0, ("error", faults.ERRNOS["EACCES"])),
-                          ("match", "os.remove|os.unlink", 0, ("crash-after",)), ("match", "os.chmod", 0, ("crash-after",))]
+                          ("match", "os.remove|os.unlink", 0, ("crash-after",)), ("match", "os.chmod|os.fchmod", 0, ("crash-after",))]
                 combos = [(a, b) for a in pre for b in second]
                 rng.shuffle(combos)
                 for n, (pf, f2) in enumerate(combos[:case.get("seq_samples", 16)]):
